@@ -38,11 +38,14 @@ from harness.common import blit, coqlist, zlist, zlit
 RULE = (
     "trace correspondence: every cell of {solve,integrate,expm,<unknown>} x {ket,dop} x {dense,sparse,linear "
     "operator,(evals,evecs) tuple,callable} x {d=2,d=3} x {int_stop none/given}, each with several random dyadic "
-    "(multiples of 1/8) t0 and time lists (non-uniform, repeated; non-monotonic for solve and expm), through "
-    "update_to or at_times; compared exactly in Coq.  Non-trivial: accepted cell with >= 2 requested times, or a "
+    "(multiples of 1/8) t0 and time lists (non-uniform, repeated; non-monotonic for solve and expm), plus for "
+    "every accepted cell late-time lists with increments tiny relative to the current time (t0=256 with steps of "
+    "2^-10; t=64 then steps of 2^-13), through update_to or at_times; compared exactly in Coq (the model's integrate "
+    "skip rule is the coded 4-ulp test).  Non-trivial: accepted cell with >= 2 requested times, or a "
     "rejected cell.  oracle: random Hermitian H (real/complex, d in 2..8), dense/sparse/tuple/linear operator/"
     "callable, pure and mixed states, t0 != 0, vs scipy.linalg.expm at 1e-7 (integrate: 1e-4, scipy's default "
-    "rtol=1e-6 cannot be set through Evolution); non-trivial: >= 2 requested times."
+    "rtol=1e-6 cannot be set through Evolution), incl. fine grids late in time (t0=250, dt=1e-3; t=40, dt=1e-4) with "
+    "||H||=50; non-trivial: >= 2 requested times."
 )
 
 TOL = 1e-7  # solve / expm
@@ -66,7 +69,7 @@ EQS = {
     "schrodinger_eq_ket_timedep": "Q_ket_td",
     "schrodinger_eq_dop_timedep": "Q_dop_td",
 }
-SCALE = 8  # times are multiples of 1/8
+SCALE = 8192  # times are multiples of 2^-13 (ordinary lists use multiples of 1/8)
 
 COQ_HEADER = """From Coq Require Import ZArith List Bool.
 From QV Require Import C18.Model.
@@ -121,7 +124,7 @@ Definition replay_match (v : version) (c : config) (t0 : Z) (ts : list Z) (tr : 
 
 def dy(rng, lo, hi):
     """a dyadic time k/8 with lo <= k/8 <= hi"""
-    return rng.randint(int(lo * SCALE), int(hi * SCALE)) / SCALE
+    return rng.randint(int(lo * 8), int(hi * 8)) / 8
 
 
 def to_z(x):
@@ -418,18 +421,31 @@ def observe_impl(method, isdop, hk, d, int_stop, t0, ts, api, rngseed):
 def detect_version(ctx):
     """which of the model's code versions the implementation is (the two
     switches correspond to the two `_refuted` theorems)"""
+    from quimb.evo import Evolution
+
     v = {}
-    o = observe_impl("expm", True, "dense", 3, False, 0.5, [1.25], "update_to", 11)
-    if o["ctor"] == "(Raised E_Type)":
+
+    def probe(*a):
+        # a probe whose observation is outside the model's vocabulary must not stop the
+        # stream: the per-case correspondence reports it for every affected cell
+        try:
+            return observe_impl(*a)
+        except ValueError:
+            return None
+
+    o = probe("expm", True, "dense", 3, False, 0.5, [1.25], "update_to", 11)
+    if o is None:
+        v["expm_dop"] = "EDP_twosided" if hasattr(Evolution, "_update_to_expm_dop") else "EDP_onesided"
+    elif o["ctor"] == "(Raised E_Type)":
         v["expm_dop"] = "EDP_reject"
     elif o["ctor"].startswith("(Accepted R_expm_dop"):
         v["expm_dop"] = "EDP_twosided"
     else:
         v["expm_dop"] = "EDP_onesided"
-    o2 = observe_impl("solve", False, "dense", 2, False, 0.5, [1.25], "update_to", 12)
-    v["by_type"] = o2["ctor"].startswith("(Accepted")
-    o3 = observe_impl("integrate", False, "dense", 3, False, 0.5, [1.25, 1.25], "update_to", 13)
-    v["int_skip"] = len(o3["events"]) == 1
+    o2 = probe("solve", False, "dense", 2, False, 0.5, [1.25], "update_to", 12)
+    v["by_type"] = o2 is None or o2["ctor"].startswith("(Accepted")
+    o3 = probe("integrate", False, "dense", 3, False, 0.5, [1.25, 1.25], "update_to", 13)
+    v["int_skip"] = o3 is not None and len(o3["events"]) == 1
     ctx.extra["implementation_code_version"] = (
         f"expm with a density operator: {v['expm_dop']}; pre-diagonalised Hamiltonian recognised by type: {v['by_type']}; "
         f"integrate skips a request for the time it is already at: {v['int_skip']} "
@@ -450,7 +466,7 @@ def random_times(rng, method, t0, n):
             if rng.random() < 0.25:
                 ts.append(cur)  # repeated time
             else:
-                cur = cur + rng.randint(1, 12) / SCALE
+                cur = cur + rng.randint(1, 12) / 8
                 ts.append(cur)
         return ts
     cur = t0
@@ -463,6 +479,29 @@ def random_times(rng, method, t0, n):
         else:
             ts.append(dy(rng, -3, 5))
     return ts
+
+
+def late_times(rng, family, method):
+    """requested times whose increments are tiny RELATIVE to the current time:
+    A: t0 = 256, increments k * 2^-10;  B: t0 = 60..63, first t = 64, then
+    increments k * 2^-13.  Exact repeats included; solve / expm also step back."""
+    if family == "A":
+        t0, cur, q = 256.0, 256.0, 2.0 ** -10
+        ts = []
+    else:
+        t0, cur, q = 60.0 + rng.randint(0, 24) / 8, 64.0, 2.0 ** -13
+        ts = [64.0]
+    for _ in range(rng.randint(3, 5)):
+        r = rng.random()
+        if r < 0.2 and ts:
+            ts.append(ts[-1])
+        elif r < 0.35 and method != "integrate" and ts:
+            cur = cur - rng.randint(1, 2) * q
+            ts.append(cur)
+        else:
+            cur = cur + rng.randint(1, 3) * q
+            ts.append(cur)
+    return t0, ts
 
 
 def trace_stream(ctx):
@@ -478,12 +517,23 @@ def trace_stream(ctx):
                 for d in (2, 3):
                     for int_stop in (False, True):
                         # a cell the documented table rejects needs no time lists: the budget goes to accepted cells
-                        reps = reps_ok if py_supported(method, hk, int_stop) else reps_rej
-                        for rep in range(reps):
-                            t0 = dy(rng, -2, 2) if rep % 5 else 0.0
-                            n = rng.randint(1, 5)
-                            ts = random_times(rng, method, t0, n)
-                            api = "at_times" if rep % 2 else "update_to"
+                        supported = py_supported(method, hk, int_stop)
+                        reps = reps_ok if supported else reps_rej
+                        # two extra cases per accepted cell (four in the thorough tier): late current time, tiny increments
+                        late = ([("A", "update_to"), ("B", "at_times")] if (d + int(isdop)) % 2 else [("A", "at_times"), ("B", "update_to")])
+                        if not ctx.quick:
+                            late = [(f, a) for f in "AB" for a in ("update_to", "at_times")]
+                        plan = [None] * reps + (late if supported else [])
+                        for rep, fam in enumerate(plan):
+                            if fam is None:
+                                t0 = dy(rng, -2, 2) if rep % 5 else 0.0
+                                n = rng.randint(1, 5)
+                                ts = random_times(rng, method, t0, n)
+                                api = "at_times" if rep % 2 else "update_to"
+                            else:
+                                t0, ts = late_times(rng, fam[0], method)
+                                api = fam[1]
+                                ctx.bump("late_time_small_increment:" + fam[0])
                             seed = rng.randrange(1 << 30)
                             cid += 1
                             rec = {"method": method, "isdop": isdop, "ham": hk, "d": d, "int_stop": int_stop,
@@ -673,15 +723,15 @@ FUNCS = {
 }
 
 
-def rand_herm(rng, d, cplx):
+def rand_herm(rng, d, cplx, norm=None):
     a = rng.normal(size=(d, d)) + (1j * rng.normal(size=(d, d)) if cplx else 0)
     H = (a + a.conj().T) / 2
-    H = H / np.linalg.norm(H, 2) * rng.uniform(0.5, 2.0)
+    H = H / np.linalg.norm(H, 2) * (rng.uniform(0.5, 2.0) if norm is None else norm)
     return H.astype(complex)
 
 
-def make_spec(rng, d, isdop, method, hk, cplx, t0, ts, api, compute, mixed, progbar=False, fname=None):
-    H = rand_herm(rng, d, cplx)
+def make_spec(rng, d, isdop, method, hk, cplx, t0, ts, api, compute, mixed, progbar=False, fname=None, norm=None):
+    H = rand_herm(rng, d, cplx, norm)
     spec = {"kind": "oracle", "d": d, "isdop": isdop, "method": method, "ham": hk, "cplx": cplx, "t0": t0, "ts": ts,
             "api": api, "compute": compute, "progbar": progbar, "H": cl(H)}
     if hk.startswith("callable"):
@@ -1004,6 +1054,29 @@ def oracle_stream(ctx):
         ctx.count(("oracle_progbar", i), True)
         ctx.bump("oracle:progbar")
         report(ctx, spec, run_oracle(spec))
+    # late current time, fine grid: increments tiny relative to t (dt/t ~ 4e-6, 2.5e-6); ||H|| = 50 makes
+    # every single increment visible at tolerance (0.05 rad, 0.005 rad per step)
+    k = 0
+    for rep in range(ctx.n(1, 6)):
+        for method, hk, isdop in cells:
+            for fam in "AB":
+                k += 1
+                if ctx.quick and method != "integrate" and (k + int(isdop)) % 2:
+                    continue
+                if fam == "A":
+                    t0 = 250.0
+                    ts = [250.0 + 1e-3 * j for j in (1, 2, 3, 3, 4, 5, 6)]
+                else:
+                    t0 = 39.5
+                    ts = [40.0] + [40.0 + 1e-4 * j for j in (1, 2, 3, 3, 4, 5)]
+                if rep:
+                    ts = [t for t in ts if rng.random() < 0.8] or ts[:2]
+                spec = make_spec(rng, d=int(rng.choice([2, 3, 4])), isdop=isdop, method=method, hk=hk, cplx=bool(k % 2),
+                                 t0=t0, ts=ts, api="at_times" if k % 3 == 0 else "update_to", compute=computes[k % 4],
+                                 mixed=bool(k % 2), norm=50.0)
+                ctx.count(("oracle_late", rep, k, method, hk, isdop, fam), True)
+                ctx.bump(f"oracle:late_fine_grid:{fam}:{method}")
+                report(ctx, spec, run_oracle(spec))
     # time-dependent Hamiltonians (integrate only)
     for i in range(ctx.n(15, 240)):
         hk = ["callable", "callable_sparse", "callable_commuting"][i % 3]
